@@ -97,6 +97,10 @@ def run_cases(ctx, exe, orac, cases, prop, label):
         for tid, ev, prog, lines, src in traces:
             r = out.get(tid)
             ctx.count("model:events", len(ev))
+            nref = sum(1 for e in ev if "startrefused" in e)
+            if nref:
+                ctx.count("model:traces-with-a-refused-start (running / failed device)")
+                ctx.count("model:refused-start-events", nref)
             if r is None:
                 ctx.broken_tie("the extracted model produced no verdict for a trace", tid)
             elif r[0]:
